@@ -713,6 +713,51 @@ def gen_simp_groups(rng, chk):
     return {"m": m, "ops": ops, "display": rng.random() < 0.4, "as_list": rng.random() < 0.25}
 
 
+def gen_shift_cases(rng, chk):
+    """Circuits on which `_update_perm` has to SHIFT blocks already placed (no window of len(modes) free slots is
+    left although enough slots are free): rare for random circuits (about 1.5 % of the sandwiches with several
+    groups), so candidates (a permutation and a partition of the modes into consecutive groups) are drawn in bulk,
+    the model's trace of the heuristic says which of them shift, and those become PERM / one component per group /
+    PERM circuits.  (The model is used to pick inputs only; what is checked on them is the real `simplify`.)"""
+    cands = []
+    for _ in range(chk.pick(3000, 10000)):
+        m = rng.randint(5, 14) if rng.random() < 0.75 else rng.randint(15, chk.pick(30, 40))
+        pl = list(range(m))
+        rng.shuffle(pl)
+        groups, pos = [], 0
+        while pos < m:
+            w = min(rng.choice((1, 2, 2, 2, 3, 3, 4)), m - pos)
+            groups.append(list(range(pos, pos + w)))
+            pos += w
+        cands.append((m, pl, groups))
+    reps = chk.lean.ask_many([{"op": "heur", "permList": pl, "adj": g} for _, pl, g in cands])
+    out = []
+    for (m, pl, groups), rep in zip(cands, reps):
+        if not any(t.startswith("heur-shift") for t in rep.get("trace", [])):
+            continue
+        prev = [0] * m
+        for i, v in enumerate(pl):
+            prev[v] = i                    # invert_permutation(prev) == pl
+        mids = []
+        for g in groups:
+            w = len(g)
+            if w < 2:
+                continue
+            r = rng.random()
+            if w == 2 and r < 0.5:
+                leaf = gens.gen_leaf(rng, 2, kinds=("BS",))
+            elif w <= 3 and r < 0.8:
+                leaf = {"t": "U", "rows": gens.qmat_json(gens.cayley_unitary(rng, w))}
+            else:
+                leaf = {"t": "Barrier", "m": w}
+            mids.append({"off": g[0], "leaf": leaf})
+        rng.shuffle(mids)
+        ops = [{"off": 0, "leaf": {"t": "PERM", "perm": prev}}] + mids + \
+              [{"off": 0, "leaf": {"t": "PERM", "perm": gen_perm_vec(rng, m)}}]
+        out.append({"m": m, "ops": ops, "display": rng.random() < 0.4, "as_list": rng.random() < 0.25})
+    return out
+
+
 def gen_simp_case(rng, chk):
     r = rng.random()
     if r < 0.30:
@@ -1339,6 +1384,10 @@ def run(chk: core.Check):
         handle_simplify(chk, case)
         if i % 4 == 0:
             handle_decompose(chk, case)
+    shift_cases = gen_shift_cases(rng, chk)
+    chk.extra["shift_cases"] = len(shift_cases)
+    for case in shift_cases:
+        handle_simplify(chk, case)
     for _ in range(chk.pick(450, 2500)):
         handle_flatten(chk, gen_flat_case(rng, chk))
 
